@@ -101,7 +101,10 @@ class Route:
             if f_out:
                 prt = f_out(prt)
             if f_in:
-                assert f_in(prt)[1]  # `pos` must be > 0 if match
+                # validate the value together with the literal text that follows it:
+                # a filter mask may look ahead at it (e.g. `path` before a literal)
+                following = pattern_out[cidx:].split('\r', 1)[0]
+                assert f_in(prt + following)[1]  # `pos` must be > 0 if match
             ret.append(prt)
 
         if clen:
